@@ -137,7 +137,7 @@ func genC05(r *rand.Rand, run int, tier string) *vm.Plan {
 func init() {
 	register(&Spec{
 		ID: "C05", Level: "exploration", Quick: 6000, Thorough: 600000,
-		Rule: "programs from the typed generator G and from fixed shapes (transitive closure, mutual recursion, arity 0, self-joins, repeated variables), facts in shuffled order, run on datalog.World under calm / tape-ordered / tape-ordered+stalled schedules; non-trivial = Run returned nil on a program with at least one derived fact or a non-empty query result (distinct by plan hash)",
+		Rule: "programs from the typed generator G and from fixed shapes (transitive closure, mutual recursion, arity 0, self-joins, repeated variables), facts in shuffled order, run on datalog.World (directly, or on a clone, or evaluated twice, or with half of the facts added after a first evaluation, or after other rules were added and withdrawn with ResetRules) under calm / tape-ordered / tape-ordered+stalled schedules; non-trivial = Run returned nil on a program with at least one derived fact or a non-empty query result (distinct by plan hash)",
 		Gen:     genC05,
 		Oracles: func(m *vm.VM) []vm.Oracle { return []vm.Oracle{vm.Common{Prop: "C05"}, vm.DLOracle{Prop: "C05"}} },
 		Nontrivial: func(res *vm.Result) bool { return res.Probes["dl_ok"] > 0 && (res.Probes["dl_query_nonempty"] > 0 || res.Sites["combine.send"] > 0) },
